@@ -49,6 +49,12 @@ TRead == /\ l <= Len(Rec) /\ E.k = "Read"
          /\ (IF E.val = -1 THEN Live(E.c) = {} ELSE Live(E.c) = {E.val})
          /\ l' = l + 1 /\ UNCHANGED <<tree, n, ndel, last, th, results, ended>>
 
+\* validate_tx of block b's transaction under the read locks
+TVtx == /\ l <= Len(Rec) /\ E.k = "VTx"
+        /\ LET t == tree[E.b].tx IN
+             E.ok = ((\A c \in t.ins : Live(c) # {}) /\ (\A c \in t.outs : Live(c) = {}))
+        /\ l' = l + 1 /\ UNCHANGED <<tree, n, ndel, last, th, results, ended>>
+
 THead == /\ l <= Len(Rec) /\ E.k = "Head"
          /\ E.head = n.head
          /\ l' = l + 1 /\ UNCHANGED <<tree, n, ndel, last, th, results, ended>>
@@ -62,7 +68,7 @@ TFinal == /\ l <= Len(Rec) /\ E.k = "Final"
           /\ ToSet(E.bodies) = n.bodies /\ ToSet(E.hdrs) = n.hdrs
           /\ l' = l + 1 /\ UNCHANGED <<tree, n, ndel, last, th, results, ended>>
 
-TNext == TSilent \/ TSec \/ TEnd \/ TRead \/ THead \/ TFinal
+TNext == TSilent \/ TSec \/ TEnd \/ TRead \/ TVtx \/ THead \/ TFinal
 TSpec == TInit /\ [][TNext]_tvars
 
 \* high-water mark of consumed events (silent steps do not advance l)
